@@ -25,7 +25,7 @@ DEFAULT_DOM = {"h": ["*"], "p": ""}
 
 def mismatches(txt):
     out = {}
-    for m in re.finditer(r'<<"MISMATCH", (\d+), "([^"]+)">>', txt):
+    for m in re.finditer(r'<<\s*"MISMATCH",\s*(\d+),\s*"([^"]+)"\s*>>', txt):
         out.setdefault(int(m.group(1)), set()).add(m.group(2))
     return out
 
